@@ -37,6 +37,8 @@ def run(ctx):
                       "a plain value overriding an existing link ends it (relink(None) is what cancels the pending task), except for the sync's own write", floor=1)
     ctx.rule("R10.l", "link model: Parameters._update_ref with _setup_refs interpreted abstractly (parameter x/y/new x None / reference on a new source / on an already watched source / asynchronous reference x pending tasks, 48 cases): every old source watcher unwatched once on its own object, the pending task of that parameter cancelled and deregistered (others untouched), refs replaced/removed, exactly one recorded watcher per source of the new table watching exactly its dependency names", floor=1)
     ctx.rule("R10.k", "constructor model: Parameters._setup_params (with _instantiate_param) interpreted abstractly on 288 combinations of keywords x reference modes (plain value / reference with a value / reference without a value yet / asynchronous reference) x an unknown keyword: own copy of every instantiate=True default and pinned constants before any keyword is applied (and still there when a keyword assigns nothing), exactly the specified assignments, every reference and only references recorded", floor=1)
+    ctx.rule("R10.n", "rx cache model (shared with R09.i): under every short history of reads, input/argument updates and events of a node's own Trigger (a superseded asynchronous evaluation "
+                      "reporting in), a read gives the result for the CURRENT inputs: an own-trigger event neither invalidates nor validates the node", floor=1)
     ctx.rule("R10.j", "the scope that marks the sync's own writes replaces the syncing set by a fresh one and restores the saved one: it never mutates in place the set object it saved "
                       "(otherwise the marker outlives the scope and every later plain assignment looks like a sync write that must not cancel)", floor=1)
     ctx.not_decided += ["the asyncio scheduler's cancellation semantics (trusted: Task.cancel() raises at the await, so no later write happens)",
@@ -249,6 +251,8 @@ def run(ctx):
     syncing_set_replaced(ctx, "R10.j")
 
     # model-level rule, run last
+    from checks import rx_model
+    rx_model.report(ctx, "R10.n")
     from checks import setter_model
     setter_model.report(ctx, "C10", "R10.m")
     from checks import ctor_model
